@@ -14,6 +14,9 @@ CONSTANTS
   Senses <- MC_Senses
   AllNames <- MC_AllNames
   Want <- MC_Want
+  FinalEn <- MC_FinalEn
+  Stages <- MC_Stages
+  PRPredict <- MC_NoPR
 INVARIANT DenClosed
 
 CHECK_DEADLOCK FALSE
